@@ -1,6 +1,6 @@
 (* Correspondence driver: reads one case per line  "<id> <sx>"  where
    sx ::= <non-negative int> | "(" sx* ")", runs the extracted Model.run, prints "<id> <sx>". *)
-open Model
+open MODEL_MODULE
 
 let rec pos_of_int (i : int) : positive =
   if i = 1 then XH
@@ -55,7 +55,7 @@ let () =
       Buffer.clear b;
       Buffer.add_string b id;
       Buffer.add_char b ' ';
-      (try print b (run (parse line (sp + 1)))
+      (try print b (RUN_FUNCTION (parse line (sp + 1)))
        with Failure m -> Buffer.add_string b ("!" ^ m)
           | Stack_overflow -> Buffer.add_string b "!stack");
       Buffer.add_char b '\n';
